@@ -6,6 +6,15 @@
  * (peek, peek, pop) and must give the same sequence.
  *
  * options: maxparts=1|2|3 date3=0|1 intervals=1,2,.. anchors=N menucap=N terms=quick|full freqlo= freqhi=
+ *
+ * mode=grammar (default) is the above.  Two further families with their own enumerations (own case indices):
+ * mode=setposmix  YEARLY/MONTHLY rules whose candidate sets differ in size from period to period, with BYSETPOS
+ *                 lists that mix positive and negative positions such that a positive position exists in some
+ *                 periods only (or in none); synchronised DTSTARTs derived like in the grammar.
+ * mode=unsync     FREQ=MONTHLY;INTERVAL=n;BYMONTH=... (optionally with BYMONTHDAY/BYDAY) with the DTSTART GIVEN
+ *                 (the anchor itself), so DTSTART's month need not be a listed one and INTERVAL counts from
+ *                 DTSTART's month.  Only the members after such a DTSTART are judged (a leading DTSTART that is
+ *                 no member is tolerated either way); options: intervals=, anchors=, terms=quick|full.
  */
 #include "vdrv.h"
 #include "ref/icalio.h"
@@ -18,6 +27,18 @@
 static int nanchors = 8;
 static int terms_full = 0;
 static int ckpt_pass = 1;	/* --opt ckpt=0 switches the write-out / read-again pass off */
+static int unsync = 0;		/* mode=unsync: DTSTART is given, not derived */
+
+/* observation window of a case */
+static int64_t
+case_window(const struct rg_rule_s *g)
+{
+	if (unsync) {
+		/* months that are both listed and on the INTERVAL grid may be as far as 12 * INTERVAL months apart */
+		return (int64_t)40 * 366 * 86400;
+	}
+	return rg_window(g->freq);
+}
 
 static int64_t
 inst_secs(echs_instant_t i)
@@ -108,8 +129,9 @@ run_case(const struct rg_rule_s *g, const struct term_s *tm, rf_dt t0, const int
 	static int64_t ref[MAXOCC + 8], imp[MAXOCC + 8], imp2[MAXOCC + 8];
 	int nref, nimp, nimp2, ambig = 0, trunc = 0, beyond = 0, beyond2 = 0, adm = 0;
 	const int64_t ts0 = rf_secs(t0);
-	const int64_t tend = ts0 + rg_window(g->freq);
+	const int64_t tend = ts0 + case_window(g);
 	char sig[256], b1[32], b2[32];
+	int lead = 0;
 
 	/* termination */
 	if (tm->count) {
@@ -142,7 +164,12 @@ run_case(const struct rg_rule_s *g, const struct term_s *tm, rf_dt t0, const int
 		vd_count("skipped_bysetpos_ambiguous", 1);
 		return;
 	}
-	if (!nref || ref[0] != ts0) {
+	if (unsync && !nref) {
+		/* nothing after DTSTART inside the window: C09's business */
+		vd_count("skipped_empty", 1);
+		return;
+	}
+	if (!unsync && (!nref || ref[0] != ts0)) {
 		/* cannot happen for derived DTSTARTs; be safe */
 		vd_count("skipped_unsynchronised", 1);
 		return;
@@ -156,6 +183,16 @@ run_case(const struct rg_rule_s *g, const struct term_s *tm, rf_dt t0, const int
 	}
 	nimp = drain(t->strm, imp, tend, 0, &beyond, &adm, t0.allday);
 	free_echs_task(t);
+	if (unsync && ref[0] != ts0) {
+		vd_count("dtstart_not_a_member", 1);
+		if (nimp && imp[0] == ts0) {
+			/* a DTSTART that is no member of its rule: RFC 5545 3.8.5.3 leaves open whether it is
+			 * an instance, tolerate it either way and judge what comes after it */
+			lead = 1;
+			memmove(imp, imp + 1, sizeof(*imp) * (size_t)--nimp);
+			vd_count("dtstart_not_a_member_delivered", 1);
+		}
+	}
 	if (nref >= 2) {
 		vd_nontrivial();
 	}
@@ -199,7 +236,8 @@ run_case(const struct rg_rule_s *g, const struct term_s *tm, rf_dt t0, const int
 			} else {
 				cl = "missing";
 			}
-			snprintf(sig, sizeof(sig), "%s/%s/%s/%s/%s", cl, g->shape, tm->name, t0.allday ? "date" : "datetime", idxclass(i));
+			snprintf(sig, sizeof(sig), "%s/%s/%s/%s/%s%s", cl, g->shape, tm->name, t0.allday ? "date" : "datetime", idxclass(i),
+				 !unsync ? "" : ref[0] != ts0 ? "/dtstart-off-rule" : "/dtstart-on-rule");
 			vd_viol(sig, "at index %d: echse %s, RFC %s (echse gives %d, RFC %d occurrences in window)", i,
 				i < nimp ? secs_str(b1, sizeof(b1), imp[i], t0.allday) : beyond ? "(beyond window)" : "(end of stream)",
 				i < nref ? secs_str(b2, sizeof(b2), ref[i], t0.allday) : "(none)", nimp, nref);
@@ -220,6 +258,9 @@ run_case(const struct rg_rule_s *g, const struct term_s *tm, rf_dt t0, const int
 	if (t != NULL && t->strm != NULL) {
 		int adm2 = 0;
 		nimp2 = drain(t->strm, imp2, tend, 1, &beyond2, &adm2, t0.allday);
+		if (lead && nimp2 && imp2[0] == ts0) {
+			memmove(imp2, imp2 + 1, sizeof(*imp2) * (size_t)--nimp2);
+		}
 		if (nimp2 != nimp || memcmp(imp, imp2, sizeof(*imp) * (size_t)nimp) || beyond != beyond2) {
 			int i;
 			for (i = 0; i < nimp && i < nimp2 && imp[i] == imp2[i]; i++);
@@ -231,7 +272,7 @@ run_case(const struct rg_rule_s *g, const struct term_s *tm, rf_dt t0, const int
 	/* the daemon also checkpoints: after k occurrences the task is written out, later read again and goes on.
 	 * What it goes on with must be what the uninterrupted stream delivers from k on (only judged when the
 	 * uninterrupted stream agreed with the reference, so that findings of the rule itself are not repeated) */
-	if (!bad && ckpt_pass && !adm && nimp >= 2) {
+	if (!bad && ckpt_pass && !unsync && !adm && nimp >= 2) {
 		static const int ks[] = {1, 3, 70};
 		for (size_t q = 0; q < sizeof(ks) / sizeof(*ks); q++) {
 			const int k = ks[q];
@@ -291,12 +332,12 @@ per_rule(const struct rg_rule_s *g, void *clo)
 		}
 		vd_beat();
 		/* derive a synchronised DTSTART: the first member at or after the anchor */
-		n = rf_eval(&g->ref, an, rf_secs(an) + rg_window(g->freq), first, 1, &ambig, &trunc);
+		n = unsync ? 1 : rf_eval(&g->ref, an, rf_secs(an) + rg_window(g->freq), first, 1, &ambig, &trunc);
 		if (!n) {
 			/* empty inside the window: C09's business */
 			continue;
 		}
-		rf_dt t0 = rf_from_secs(first[0], an.allday);
+		rf_dt t0 = unsync ? an : rf_from_secs(first[0], an.allday);
 		if (t0.y > 2058) {
 			continue;
 		}
@@ -313,9 +354,111 @@ per_rule(const struct rg_rule_s *g, void *clo)
 		}
 		static int64_t unb[MAXOCC + 8];
 		/* the unbounded listing, for UNTIL placement; re-anchored at the derived DTSTART */
-		n = rf_eval(&g->ref, t0, rf_secs(t0) + rg_window(g->freq), unb, 8, &ambig, &trunc);
+		n = rf_eval(&g->ref, t0, rf_secs(t0) + case_window(g), unb, 8, &ambig, &trunc);
 		for (int k = 0; k < ntms; k++) {
+			if (unsync && tms[k].count) {
+				/* whether a DTSTART that is no member counts towards COUNT is open as well */
+				continue;
+			}
 			run_case(g, &tms[k], t0, unb, n);
+		}
+	}
+}
+
+/* ---- rules outside the menus of rrgram.h (own value texts), same text/shape/reference conventions ---- */
+struct pv_s {
+	int part;
+	const char *val;
+};
+
+static void
+mk_rule(struct rg_rule_s *g, int freq, int interval, const char *ishape, const struct pv_s *pv, int npv, const char *poskind)
+{
+	size_t o = 0, so = 0;
+
+	memset(g, 0, sizeof(*g));
+	g->freq = freq, g->interval = interval, g->nparts = npv;
+	g->ref.freq = freq, g->ref.interval = interval, g->ref.count = -1;
+	o += (size_t)snprintf(g->text + o, sizeof(g->text) - o, "FREQ=%s", rg_freqname[freq]);
+	if (interval != 1) {
+		o += (size_t)snprintf(g->text + o, sizeof(g->text) - o, ";INTERVAL=%d", interval);
+	}
+	so += (size_t)snprintf(g->shape + so, sizeof(g->shape) - so, "%s/i%s", rg_freqname[freq], ishape);
+	for (int i = 0; i < npv; i++) {
+		const char *kind = pv[i].part == P_POS && poskind ? poskind : rg_kind(pv[i].part, pv[i].val);
+		g->part[i] = pv[i].part;
+		o += (size_t)snprintf(g->text + o, sizeof(g->text) - o, ";%s=%s", rg_key[pv[i].part], pv[i].val);
+		so += (size_t)snprintf(g->shape + so, sizeof(g->shape) - so, "/%s:%s", rg_key[pv[i].part] + 2, kind);
+		rg_apply(&g->ref, pv[i].part, pv[i].val);
+	}
+}
+
+/* mode=setposmix */
+static void
+enumerate_setposmix(const int *ivals, int nivals)
+{
+	/* candidate sets whose size differs from period to period (sizes in the comments) */
+	static const struct {
+		int freq;
+		int n;
+		struct pv_s pv[2];
+	} base[] = {
+		{RF_MONTHLY, 1, {{P_DAY, "FR"}}},				/* 4..5 */
+		{RF_MONTHLY, 1, {{P_DAY, "MO"}}},				/* 4..5 */
+		{RF_MONTHLY, 1, {{P_DAY, "SA,SU"}}},				/* 8..10 */
+		{RF_MONTHLY, 1, {{P_DAY, "MO,WE,FR"}}},				/* 12..14 */
+		{RF_MONTHLY, 1, {{P_MDAY, "29,30,31"}}},			/* 0..3 */
+		{RF_MONTHLY, 1, {{P_MDAY, "1,15,31"}}},				/* 2..3 */
+		{RF_MONTHLY, 2, {{P_MON, "2"}, {P_MDAY, "27,28,29"}}},		/* 2..3 */
+		{RF_MONTHLY, 1, {{P_DAY, "MO,TU,WE,TH,FR,SA,SU"}}},		/* 28..31 */
+		{RF_YEARLY, 2, {{P_MON, "2"}, {P_MDAY, "27,28,29"}}},		/* 2..3 */
+		{RF_YEARLY, 2, {{P_MON, "2"}, {P_DAY, "FR"}}},			/* 4..5 */
+		{RF_YEARLY, 2, {{P_MON, "1,2"}, {P_MDAY, "29,30,31"}}},		/* 3..4 */
+		{RF_YEARLY, 1, {{P_YDAY, "1,365,366"}}},			/* 2..3 */
+		{RF_YEARLY, 1, {{P_DAY, "MO"}}},				/* 52..53 */
+	};
+	/* a positive position that some (or all) periods lack, next to negative ones */
+	static const char *const pos[] = {
+		"5,-2", "3,-1,-2", "6,-1", "5,-1,-5", "2,-1", "1,5,-1", "4,-4", "30,-1", "53,-1,-53",
+	};
+
+	for (size_t b = 0; b < sizeof(base) / sizeof(*base); b++) {
+		for (size_t p = 0; p < sizeof(pos) / sizeof(*pos); p++) {
+			for (int k = 0; k < nivals; k++) {
+				struct rg_rule_s g;
+				struct pv_s pv[3];
+				int n = base[b].n;
+
+				memcpy(pv, base[b].pv, sizeof(*pv) * (size_t)n);
+				pv[n].part = P_POS, pv[n].val = pos[p], n++;
+				mk_rule(&g, base[b].freq, ivals[k], ivals[k] == 1 ? "1" : "N", pv, n, "mixed-some-lack");
+				per_rule(&g, NULL);
+			}
+		}
+	}
+}
+
+/* mode=unsync */
+static void
+enumerate_unsync(const int *ivals, int nivals)
+{
+	static const char *const mon[] = {"3", "6", "1", "2", "6,12", "4,9", "1,3,5,7,8,10,12"};
+	static const struct pv_s second[] = {
+		{-1, NULL}, {P_MDAY, "15"}, {P_MDAY, "-1"}, {P_MDAY, "29,30,31"}, {P_DAY, "MO"}, {P_DAYORD, "-1FR"},
+	};
+
+	unsync = 1;
+	for (size_t s = 0; s < sizeof(second) / sizeof(*second); s++) {
+		for (size_t m = 0; m < sizeof(mon) / sizeof(*mon); m++) {
+			for (int k = 0; k < nivals; k++) {
+				struct rg_rule_s g;
+				struct pv_s pv[2] = {{P_MON, mon[m]}, second[s]};
+				const int iv = ivals[k];
+
+				mk_rule(&g, RF_MONTHLY, iv, iv == 1 ? "1" : iv < 12 ? "N" : iv % 12 ? "N-gt12" : "N-years",
+					pv, second[s].val ? 2 : 1, NULL);
+				per_rule(&g, NULL);
+			}
 		}
 	}
 }
@@ -338,6 +481,13 @@ enumerate(void)
 	nanchors = (int)vd_opt_l("anchors", 8);
 	terms_full = !strcmp(vd_opt("terms", "quick"), "full");
 	ckpt_pass = (int)vd_opt_l("ckpt", 1);
+	if (!strcmp(vd_opt("mode", "grammar"), "setposmix")) {
+		enumerate_setposmix(ivals, c.nintervals);
+		return;
+	} else if (!strcmp(vd_opt("mode", "grammar"), "unsync")) {
+		enumerate_unsync(ivals, c.nintervals);
+		return;
+	}
 	rg_enumerate(&c, per_rule, NULL);
 }
 
